@@ -232,7 +232,11 @@ impl Tzif {
                     })
                 }
             }
-            Err(idx) if idx == 0 => Ok(get_timezone_offset(db, idx)),
+            // Local time before the first transition is specified by the first time type (time type 0).
+            Err(0) => Ok(TimeZoneOffset {
+                offset: db.local_time_type_records[0].utoff.0,
+                transition_epoch: None,
+            }),
             Err(idx) => {
                 if db.transition_times.len() <= idx {
                     // The transition time provided is beyond the length of
@@ -274,9 +278,10 @@ impl Tzif {
         let estimated_idx = match b_search_result {
             // TODO: Double check returning early here with tests.
             Ok(idx) => return Ok(get_local_record(db, idx).into()),
-            Err(idx) if idx == 0 => {
+            // Before the first transition local time is specified by time type 0.
+            Err(0) => {
                 return Ok(LocalTimeRecordResult::Single(
-                    get_local_record(db, idx).into(),
+                    db.local_time_type_records[0].into(),
                 ))
             }
             Err(idx) => {
